@@ -12,6 +12,7 @@ import (
 	"math"
 	"strconv"
 	"strings"
+	"sync"
 
 	gio "github.com/whatap/golib/io"
 	"verif/harness/vh"
@@ -68,6 +69,8 @@ func genInt(r *vh.Rng, w uint) int64 {
 var floatBits = []uint64{0, 0x80000000, 0x7f800000, 0xff800000, 0x7fc00000, 0x7fc00001, 0xffc12345, 0x7f800001, 1, 0x007fffff, 0x3f800000, 0xffffffff}
 var doubleBits = []uint64{0, 0x8000000000000000, 0x7ff0000000000000, 0xfff0000000000000, 0x7ff8000000000000, 0x7ff8000000000001, 0xfff8123456789abc, 0x7ff0000000000001, 1, 0x000fffffffffffff, 0x3ff0000000000000, 0xffffffffffffffff}
 
+var bigBudget = 24 // at most this many 1 MiB payloads per run (memory)
+
 var blobLens = []int{0, 1, 2, 252, 253, 254, 255, 256, 300}
 var blobLensBig = []int{65534, 65535, 65536, 65537}
 
@@ -78,7 +81,8 @@ func genBytes(r *vh.Rng, thorough bool, maxLen int) []byte {
 		n = r.PickInt(blobLens)
 	case r.Chance(4):
 		n = r.PickInt(blobLensBig)
-	case thorough && r.Chance(1):
+	case thorough && bigBudget > 0 && r.Chance(1):
+		bigBudget--
 		n = 1 << 20
 	default:
 		n = r.Intn(40)
@@ -436,7 +440,7 @@ func main() {
 
 	nprog, maxlen := 600, 40
 	if env.Thorough {
-		nprog, maxlen = 20000, 400
+		nprog, maxlen = 8000, 300
 	}
 
 	var lines []string
@@ -451,6 +455,50 @@ func main() {
 		exps = append(exps, expect{want, key, desc})
 	}
 
+	totalLines := 0
+	flush := func() {
+		if len(lines) == 0 {
+			return
+		}
+		totalLines += len(lines)
+		outs, err := vh.RunDriver(env.Driver, lines)
+		if err != nil {
+			vh.Die("%v", err)
+		}
+		// a disagreeing multi-op program is localised: each of its ops is re-run alone
+		var lines2 []string
+		var exps2 []expect
+		for i, got := range outs {
+			e := exps[i]
+			if got == e.want {
+				continue
+			}
+			if strings.HasSuffix(e.key, ":program") && strings.HasPrefix(lines[i], "W ") {
+				for _, one := range strings.Split(e.desc, ";") {
+					o1 := parseOp(one)
+					p := runWrite([]op{o1})
+					lines2 = append(lines2, "W "+p.line)
+					exps2 = append(exps2, expect{fmt.Sprintf("%s %d", vh.Hex(p.bytes), p.size), "encode:" + o1.kind, p.line})
+				}
+				continue
+			}
+			rep.Fail("property", e.key, "implementation differs from the reference model",
+				map[string]interface{}{"line": vh.Clip(lines[i], 4000), "implementation": vh.Clip(e.want, 4000), "model": vh.Clip(got, 4000)})
+		}
+		if len(lines2) > 0 {
+			outs2, err := vh.RunDriver(env.Driver, lines2)
+			if err != nil {
+				vh.Die("%v", err)
+			}
+			for i, got := range outs2 {
+				if got != exps2[i].want {
+					rep.Fail("property", exps2[i].key, "implementation differs from the reference model",
+						map[string]interface{}{"line": vh.Clip(lines2[i], 4000), "implementation": vh.Clip(exps2[i].want, 4000), "model": vh.Clip(got, 4000)})
+				}
+			}
+		}
+		lines, exps = nil, nil
+	}
 	checkProg := func(ops []op, tag string) {
 		var p prog
 		oc := vh.Guard(func() { p = runWrite(ops) })
@@ -463,7 +511,7 @@ func main() {
 		for _, o := range ops {
 			rep.Count("op:" + o.kind)
 		}
-		if len(lines) < 6 {
+		if rep.Evaluations < 6 {
 			rep.Sample(map[string]interface{}{"ops": vh.Clip(p.line, 300), "bytes": vh.Clip(vh.Hex(p.bytes), 120), "size": p.size})
 		}
 		// direct evaluation of the property on the implementation
@@ -496,6 +544,9 @@ func main() {
 			ops[j] = genOp(rng, env.Thorough)
 		}
 		checkProg(ops, "random")
+		if len(lines) >= 4000 {
+			flush()
+		}
 	}
 	// 2. every boundary of every integer class through every integer op
 	for _, v := range bounds {
@@ -615,57 +666,40 @@ func main() {
 		}
 		rep.CountN("sweep24", 1<<24)
 		rep.Evaluations += 1 << 24
-		for x := uint64(0); x < 1<<32 && bad < 3; x += 1 {
-			v := int32(uint32(x))
-			b := gio.ToBytesInt(v)
-			if b[0] != byte(x>>24) || b[1] != byte(x>>16) || b[2] != byte(x>>8) || b[3] != byte(x) || gio.ToInt(b, 0) != v ||
-				math.Float32bits(gio.ToFloat(gio.ToBytesFloat(math.Float32frombits(uint32(x))), 0)) != uint32(x) {
-				bad++
-				rep.Fail("property", "roundtrip:int-sweep", "32-bit pattern mis-coded", map[string]interface{}{"value": v, "bytes": vh.Hex(b)})
-			}
+		// all 2^32 patterns, split over 16 goroutines
+		type badCase struct {
+			v int32
+			b []byte
+		}
+		badCh := make(chan badCase, 64)
+		var wg sync.WaitGroup
+		const parts = 16
+		for p := uint64(0); p < parts; p++ {
+			wg.Add(1)
+			go func(p uint64) {
+				defer wg.Done()
+				nbad := 0
+				for x := p << 28; x < (p+1)<<28 && nbad < 3; x++ {
+					v := int32(uint32(x))
+					b := gio.ToBytesInt(v)
+					if b[0] != byte(x>>24) || b[1] != byte(x>>16) || b[2] != byte(x>>8) || b[3] != byte(x) || gio.ToInt(b, 0) != v ||
+						math.Float32bits(gio.ToFloat(gio.ToBytesFloat(math.Float32frombits(uint32(x))), 0)) != uint32(x) {
+						nbad++
+						badCh <- badCase{v, b}
+					}
+				}
+			}(p)
+		}
+		go func() { wg.Wait(); close(badCh) }()
+		for bc := range badCh {
+			rep.Fail("property", "roundtrip:int-sweep", "32-bit pattern mis-coded", map[string]interface{}{"value": bc.v, "bytes": vh.Hex(bc.b)})
 		}
 		rep.CountN("sweep32", 1<<32)
 		rep.Evaluations += 1 << 32
 	}
 
-	// ---- ask the model
-	outs, err := vh.RunDriver(env.Driver, lines)
-	if err != nil {
-		vh.Die("%v", err)
-	}
-	// a disagreeing multi-op program is localised: each of its ops is re-run alone
-	var lines2 []string
-	var exps2 []expect
-	for i, got := range outs {
-		e := exps[i]
-		if got == e.want {
-			continue
-		}
-		if strings.HasSuffix(e.key, ":program") && strings.HasPrefix(lines[i], "W ") {
-			for _, one := range strings.Split(e.desc, ";") {
-				o1 := parseOp(one)
-				p := runWrite([]op{o1})
-				lines2 = append(lines2, "W "+p.line)
-				exps2 = append(exps2, expect{fmt.Sprintf("%s %d", vh.Hex(p.bytes), p.size), "encode:" + o1.kind, p.line})
-			}
-			continue
-		}
-		rep.Fail("property", e.key, "implementation differs from the reference model",
-			map[string]interface{}{"line": vh.Clip(lines[i], 4000), "implementation": vh.Clip(e.want, 4000), "model": vh.Clip(got, 4000)})
-	}
-	if len(lines2) > 0 {
-		outs2, err := vh.RunDriver(env.Driver, lines2)
-		if err != nil {
-			vh.Die("%v", err)
-		}
-		for i, got := range outs2 {
-			if got != exps2[i].want {
-				rep.Fail("property", exps2[i].key, "implementation differs from the reference model",
-					map[string]interface{}{"line": vh.Clip(lines2[i], 4000), "implementation": vh.Clip(exps2[i].want, 4000), "model": vh.Clip(got, 4000)})
-			}
-		}
-	}
-	rep.Extra["driver_lines"] = len(lines)
+	flush()
+	rep.Extra["driver_lines"] = totalLines
 	rep.Write(env.Out)
 }
 
